@@ -29,7 +29,6 @@ import (
 
 var c12Alpha = []rune{'\'', '"', ' ', '\n', '$', '`', '\\', '*', '?', ';', '&', '|', '(', ')', '<', '>', '!', '#', '~', '{', '}', 'a', '-', '=', '%', '\t'}
 var c12Danger = []rune{'\'', '"', ' ', '\n', '$', '`', '\\', '*'}
-var c12Mid = []rune{'\'', '"', ' ', '\n', '$', '`', '\\', '*', '?', ';', '&', '|', '(', '#'}
 
 var c12Extras = []string{"é", "日本", "\xff", "\xc3", "\r", "a\r\nb", "\x7f", "\x01", "\x1b[31m", "-n", "--", "-e", "\\n", "\\0", "%s", "$0", "$(b)", "`b`", "${a}", "a'b\"c", "''", "'\\''",
 	"{}", "{q}", "{+}", "\\{}", "@E@", "@B0@", "~", "~root", "a=b", "!!", "!$", " lead", "trail ", "\ttab\t", " ", "a  b", "a \t b  c", "=a==b=", "\na", "a\n", strings.Repeat("'", 3000), strings.Repeat("a b ", 2000)}
@@ -51,7 +50,8 @@ func c12Texts(thorough bool) []string {
 		add(e)
 	}
 	if thorough {
-		kit.Strings(c12Mid, 4, 4, func(s []rune) bool { add(string(s)); return true })
+		kit.Strings(c12Alpha, 4, 4, func(s []rune) bool { add(string(s)); return true })
+		kit.Strings(c12Danger, 5, 5, func(s []rune) bool { add(string(s)); return true })
 	}
 	return out
 }
@@ -69,13 +69,13 @@ func c12Plain(s string) bool {
 
 // ---------------------------------------------------------------- worlds (what fzf's state is)
 type c12world struct {
-	name   string
-	all    []*Item // allItems as Terminal.buildPlusList hands them over: current, then the selected ones
-	query  string
-	prompt string
-	delim  string
-	force  bool
-	x      *util.Executor
+	name                string
+	all                 []*Item // allItems as Terminal.buildPlusList hands them over: current, then the selected ones
+	query               string
+	prompt              string
+	delim               string
+	force               bool
+	x                   *util.Executor
 	fieldReadingDiffers int
 }
 
@@ -601,46 +601,50 @@ func (q *c12runner) batch(exps []*c12exp) {
 		}
 		return
 	}
-	// structure broken: find one culprit by bisection (more while the budget lasts)
+	// structure broken: find the first culprit by bisection
+	cls := c12Class(exps[0].T)
+	if q.r.VClasses[cls] >= 5 || q.budget <= 0 {
+		e := exps[0]
+		d := e.detail(q.sh.path)
+		d["why"] = fmt.Sprintf("a batch of %d expansions starting with this one broke the shell's marker structure; not bisected (the class has examples already)", len(exps))
+		q.r.Violation(cls, d)
+		return
+	}
 	q.bisect(exps)
 }
 
+func (q *c12runner) bad(part []*c12exp) bool {
+	var sb strings.Builder
+	for _, e := range part {
+		sb.WriteString(e.script)
+		sb.WriteByte('\n')
+	}
+	out, err := q.sh.run(sb.String())
+	got, cats, ok := c12Parse(out, part)
+	if err != nil || !ok {
+		return true
+	}
+	for i, e := range part {
+		if e.compare(got[i], cats[i], q.tmpdir) != "" {
+			return true
+		}
+	}
+	return false
+}
+
+// bisect narrows a failing batch down to its first failing expansion and judges that one alone.
 func (q *c12runner) bisect(exps []*c12exp) {
-	if len(exps) == 1 {
-		if q.single(exps[0]) {
-			q.r.Count("batch_failures_not_reproduced_alone")
+	for len(exps) > 1 {
+		q.budget--
+		half := len(exps) / 2
+		if q.bad(exps[:half]) {
+			exps = exps[:half]
+		} else {
+			exps = exps[half:]
 		}
-		return
 	}
-	if q.budget <= 0 {
-		e := exps[0]
-		d := e.detail(q.sh.path)
-		d["why"] = fmt.Sprintf("a batch of %d expansions starting with this one broke the shell's marker structure; not bisected (budget)", len(exps))
-		q.r.Violation(c12Class(e.T), d)
-		return
-	}
-	q.budget--
-	half := len(exps) / 2
-	for _, part := range [][]*c12exp{exps[:half], exps[half:]} {
-		var sb strings.Builder
-		for _, e := range part {
-			sb.WriteString(e.script)
-			sb.WriteByte('\n')
-		}
-		out, err := q.sh.run(sb.String())
-		got, cats, ok := c12Parse(out, part)
-		bad := err != nil || !ok
-		if !bad {
-			for i, e := range part {
-				if e.compare(got[i], cats[i], q.tmpdir) != "" {
-					bad = true
-					break
-				}
-			}
-		}
-		if bad {
-			q.bisect(part)
-		}
+	if q.single(exps[0]) {
+		q.r.Count("batch_failures_not_reproduced_alone")
 	}
 }
 
@@ -1031,7 +1035,7 @@ func TestVerif_C12_fish(t *testing.T) {
 		t.Skip()
 	}
 	defer r.Finish()
-	texts := c12Texts(true)
+	texts := c12Texts(r.Thorough())
 	if d := r.Replay(); d != nil {
 		tq, _ := d["text_quoted"].(string)
 		u, err := strconv.Unquote(tq)
